@@ -261,6 +261,101 @@ pub fn scenarios(tier: Tier) -> Vec<Scenario> {
 
 /// E1 part: every schedule prefix of a small cluster of real node cores (bounded depth, with a
 /// noisy Byzantine validator), each completed fairly; the window must end decided at every node.
+/// Deviation-bounded exploration of the whole node (C02-C): n = 4 real nodes, timely network; the
+/// default schedule delivers every packet after 1 ms; a deviation delays ONE consensus packet (the
+/// k-th routed in the run) by a given amount. Every k of the first seconds x every amount is run.
+fn deviation_sweep(report: &Report, tier: Tier) -> Value {
+    json!([
+        deviation_sweep_for(report, tier, "4-equal", vec![10, 10, 10, 10], BTreeSet::new(), 6_000),
+        // every vote between the two heavy nodes is needed for every certificate
+        deviation_sweep_for(report, tier, "35-35-15-15crashed", vec![35, 35, 15, 15], [3usize].into_iter().collect(), 8_000),
+    ])
+}
+
+fn deviation_sweep_for(report: &Report, tier: Tier, label: &str, stakes: Vec<u64>, crashed: BTreeSet<usize>, total_ms: u64) -> Value {
+    let n = stakes.len();
+    let run = |devs: BTreeMap<u64, u64>| -> Result<(Vec<Option<u64>>, Vec<String>, u64, BTreeMap<u64, (bool, bool, bool, bool)>), String> {
+        let _ = take_panics();
+        catch(|| {
+            let rt = runtime(17);
+            rt.block_on(async {
+                let cluster = Cluster::start(&stakes, Duration::from_millis(1), &crashed);
+                cluster.hub.inner.lock().unwrap().deviations = devs;
+                tokio::time::sleep(Duration::from_millis(total_ms)).await;
+                let fin = cluster.finalized().await;
+                let g = cluster.hub.inner.lock().unwrap();
+                let mut certs: BTreeMap<u64, (bool, bool, bool, bool)> = BTreeMap::new();
+                for (_, _, c) in &g.certs {
+                    let e = certs.entry(c.slot().inner()).or_default();
+                    match c {
+                        Cert::FastFinal(_) => e.0 = true,
+                        Cert::Final(_) => e.1 = true,
+                        Cert::Skip(_) => e.2 = true,
+                        Cert::Notar(_) => e.3 = true,
+                        _ => {}
+                    }
+                }
+                (fin, take_panics(), g.a2a_routed, certs)
+            })
+        })
+    };
+    let Ok((base_fin, _, routed, _)) = run(BTreeMap::new()) else {
+        crate::common::machinery_failure("C02 deviation sweep: baseline run panicked");
+    };
+    let base_min = base_fin.iter().flatten().copied().min().unwrap_or(0);
+    // packets routed in roughly the first half of the run
+    let upto = routed / 2;
+    let stride = tier.pick(23u64, 1);
+    let amounts: Vec<u64> = tier.pick(vec![240, 1500], vec![100, 240, 700, 1500, 3000]);
+    let jobs: Vec<(u64, u64)> = (0..upto).step_by(stride as usize).flat_map(|k| amounts.iter().map(move |a| (k, *a))).collect();
+    let outcomes: Vec<(u64, u64, u64)> = jobs
+        .par_iter()
+        .map(|(k, extra)| {
+            let replay = json!({"oracle": "whole-node deviation sweep", "configuration": label, "stakes": stakes, "crashed": crashed, "delayed_consensus_packet": k, "extra_delay_ms": extra, "total_ms": total_ms});
+            match run([(*k, *extra)].into_iter().collect()) {
+                Err(p) => {
+                    report.violation(format!("C02:simulation-panicked:deviation:{label}"), p, replay);
+                    (*k, *extra, 0)
+                }
+                Ok((fin, panics, _, certs)) => {
+                    if !panics.is_empty() {
+                        report.violation(format!("C02:node-task-panicked:one-delayed-packet:{label}"), format!("{:.200}", panics[0]), replay.clone());
+                    }
+                    let m = fin.iter().flatten().copied().min().unwrap_or(0);
+                    // one packet late by `extra`: at most the windows overlapping the delay are lost
+                    let slack = 4 + 4 * (extra / 1600 + 1);
+                    if m + slack < base_min {
+                        report.violation(
+                            format!("C02:no-progress:one-packet-delayed-{extra}ms:{label}"),
+                            format!("consensus packet #{k} delayed by {extra} ms: lowest finalized slot after {total_ms} ms is {m}, undisturbed run {base_min}: {fin:?}"),
+                            replay.clone(),
+                        );
+                    }
+                    if *extra < 250 {
+                        // still within the delay bound: no correct leader's slot may be skipped
+                        for (s, c) in &certs {
+                            let leader = leader_of(*s, n);
+                            if *s > 0 && *s + 8 < m && c.2 && !crashed.contains(&leader) {
+                                report.violation(
+                                    format!("C02:correct-leader-block-skipped:one-packet-delayed-within-bound:{label}"),
+                                    format!("consensus packet #{k} delayed by {extra} ms (below DELTA): slot {s} got a skip certificate"),
+                                    replay.clone(),
+                                );
+                                break;
+                            }
+                        }
+                    }
+                    let skipped = certs.iter().filter(|(s, c)| c.2 && !crashed.contains(&leader_of(**s, n))).count() as u64;
+                    (*k, *extra, m * 1000 + skipped)
+                }
+            }
+        })
+        .collect();
+    let distinct: BTreeSet<u64> = outcomes.iter().map(|o| o.2).collect();
+    println!("  deviation sweep [{label}]: {} runs over {} routed consensus packets (stride {stride}), baseline finalized {base_min}, distinct outcomes {:?}", outcomes.len(), upto, distinct);
+    json!({"configuration": label, "stakes": stakes, "crashed": crashed, "runs": outcomes.len(), "consensus_packets_in_range": upto, "stride": stride, "extra_delays_ms": amounts, "baseline_lowest_finalized": base_min, "distinct_outcomes_lowest_finalized_x1000_plus_skipped_slots_of_live_leaders": distinct, "virtual_ms_per_run": total_ms})
+}
+
 /// The cluster systems (real node cores + one Byzantine validator) explored by C02-A; C05 runs the
 /// same systems with its own-vote monitors.
 pub fn liveness_systems() -> Vec<crate::cluster::ClusterSys> {
@@ -552,6 +647,7 @@ pub fn run(tier: Tier) -> i32 {
             }
         }
     }
+    let deviation = if crate::common::replay_req().is_some() { json!(null) } else { deviation_sweep(&report, tier) };
     let cov = json!({
         "states": live_states,
         "transitions": live_transitions,
@@ -566,6 +662,8 @@ pub fn run(tier: Tier) -> i32 {
         "virtual_ms_per_run": total_ms,
         "inconclusive": *inconclusive.lock().unwrap(),
         "liveness_from_explored_prefixes": live,
+        "whole_node_deviation_sweep": deviation,
+        "whole_node_deviation_rule": "4 real nodes on a timely network; the default schedule delivers every packet after 1 ms, a deviation delays the k-th routed consensus packet of the run by one of the listed amounts; every k in the first half of the run (quick: every 23rd) x every amount is executed; the run must keep finalizing (within one window per 1.6 s of delay of the undisturbed run), no task may die, and a delay below DELTA must not get any slot skipped",
         "byzantine_previous_leader_handover_runs": handover_runs,
         "liveness_rule": "every state reached by the breadth-first exploration of schedule prefixes of 3 real node cores (real Votor + Pool each; Byzantine votes to single nodes, adversary-aggregated certificates, per-link FIFO deliveries incl. loop-back in every interleaving, blocks to single nodes, timeouts) is rebuilt and completed fairly (everything in flight delivered, held blocks repaired to the others, timeouts fired when nothing is in flight, Byzantine validator silent); on the completed world every slot of the window must be certified (skip or notarization/-fallback) or finalized at every node and the next window must have a ready parent",
         "samples": all_samples,
